@@ -115,6 +115,8 @@ def get_file_grouping_properties(values):
         return values[1], int(values[2]), int(values[3]), values[4]
     elif len(values) > 3:
         return values[1], int(values[2]), int(values[3]), "\t"
+    elif len(values) > 2:
+        return values[1], int(values[2]), 1, "\t"
     else:
         return values[1], 0, 1, "\t"
 
